@@ -26,24 +26,6 @@ LABELS = ["a", "A", "b", "a_002", "A_002", "a_003", "b_002", "locus000", "locus0
           "locus000_002", "x y"]
 
 _hangs = [0]
-_live = []
-
-
-def self_extend_live():
-    """Which form of CharacterDataSequence.extend does the working tree have?  True: a sequence
-    extended by itself never finishes (live generator over the growing list); False: it is doubled.
-    Observed once per run on a 1x1 matrix; selects the model variant (DESIGN 5.2)."""
-    if not _live:
-        import dendropy
-        m = dendropy.DnaCharacterMatrix.from_dict({"t0": "A"})
-        try:
-            with core.alarm(30), cpu_alarm(0.3):
-                m.extend_matrix(m)
-            _live.append(False)
-        except TimeoutError:
-            _live.append(True)
-    return _live[0]
-
 
 def _cls(dtype):
     import dendropy
@@ -808,7 +790,7 @@ def to_coq(case, obs):
             if j >= len(before) or any(a[k] != before[j][k] for k in CORE):
                 changed.append(cpair(cz(j), c_matrix(a, ix)))
         exp.append(cpair(c_out(out), clist(changed)))
-    return "(mkCase %s %s %s %s %s %s %s %s)" % (lower, suf, loc, cbool(self_extend_live()), nss, init, clist(ops), clist(exp))
+    return "(mkCase %s %s %s %s %s %s %s)" % (lower, suf, loc, nss, init, clist(ops), clist(exp))
 
 
 def nontrivial(case, obs):
@@ -861,12 +843,27 @@ def exhaustive_cases():
                 yield {"dtype": dtype, "nss": [[0, [0, 1]], [1, [100]]], "init": init, "ops": [list(o) for o in seq]}
 
 
+def probe_cases():
+    """always run: a matrix extended by itself (did not return before repair 99e94739; the model and the
+    oracle say every sequence is doubled), and concatenation of equal labels / the same object (F12)"""
+    m = {"ns": 0, "label": "a", "rows": [[1, [0, 1]], [0, [1]]], "subs": []}
+    res = []
+    for dtype in ("dna", "standard", "continuous"):
+        for op in (["ExtendMatrix", 0, 0], ["ExtendSeqs", 0, 0, False], ["ExtendSeqs", 0, 0, True]):
+            res.append({"dtype": dtype, "nss": [[0, [0, 1]]], "init": [m], "ops": [op, ["Fill", 0, 0, None, True]]})
+    full = {"ns": 0, "label": "a", "rows": [[1, [0, 1]], [0, [1, 1]]], "subs": []}
+    res.append({"dtype": "dna", "nss": [[0, [0, 1]]], "init": [full, dict(full, label="A")],
+                "ops": [["Concat", [0, 1, 0, 0]], ["ExportSub", 2, "a_003"]]})
+    return res
+
+
 def search(ctx, budget_s):
     t0 = time.time()
     rng = random.Random(ctx.seed + 1919)
     n = 0
+    fixed = probe_cases() + (list(exhaustive_cases()) if budget_s > 100 else [])
     while time.time() - t0 < budget_s and n < 20000:
-        case = gen_case(rng, 8)
+        case = fixed[n] if n < len(fixed) else gen_case(rng, 8)
         obs = observe(case)
         v = oracle(case, obs)
         n += 1
@@ -890,7 +887,10 @@ def summary(case, obs):
 def run(tier, seed, replay=None):
     ctx = core.Ctx("C19", tier, seed)
     ctx.assumptions = [
-        "model coq/Model/C19Model.v is a hand transcription of the row/column operations of charmatrixmodel.py; tied by this correspondence run",
+        "model coq/Model/C19Model.v is a hand transcription of the row/column operations of charmatrixmodel.py; tied by this correspondence run "
+        "and, for concatenate / export_* / fill / fill_taxa / pack / the seven row operations / CharacterDataSequence.extend, by the translator: "
+        "coq/Gen/CharMatrix.v is recompiled from the current source on every run and proved equal to the model (coq/Props/C19Gen.v); "
+        "trusted there: the statement compiler py/dv/gen_charmatrix.py and the Python semantics stated in coq/Model/C19Prims.v",
         "labels are ids into a finite pool; str.lower, '%s_%03d' and 'locus%03d' are uninterpreted functions in the theorems "
         "(only hypothesis, where stated: the suffix is injective in its counter up to case)",
         "sequence objects are never shared between matrices by the modelled methods (each copies); the harness never stores one sequence object in two matrices",
@@ -908,11 +908,12 @@ def run(tier, seed, replay=None):
         print("model agrees with implementation:", not bad and not errors)
         return 1 if (v or bad or errors) else 0
     ok = core.proof_stage(ctx, ["Props/C19.vo"], gen_needed=("__none__",))
-    if not ok:
+    # translator tie: Gen/CharMatrix.v (regenerated from the current charmatrixmodel.py) = the model
+    ok_gen = core.proof_stage(ctx, ["Props/C19Gen.vo"], props_file="Props/C19Gen.v", gen_needed=("CharMatrix",))
+    if not (ok and ok_gen):
         core.broken_proof(ctx, search)
-    ctx.notes.append("variant: CharacterDataSequence.extend walks a live generator over its argument: %s" % self_extend_live())
     n = 900 if tier == "quick" else 8000
-    cases = [gen_case(ctx.rng, 8 if tier == "quick" else 12) for _ in range(n)]
+    cases = probe_cases() + [gen_case(ctx.rng, 8 if tier == "quick" else 12) for _ in range(n)]
     if tier == "thorough":
         cases.extend(exhaustive_cases())
     seen = {}
